@@ -195,6 +195,8 @@ def gen_cases(tier, seed):
     for _ in range(25000 if quick else 200000):
         yield random_history(rnd)
     yield from exhaustive(tier, seed)
+    import s_backfill                      # directed scenarios for the run loop's `disconnect` back-fill (k = "bf")
+    yield from s_backfill.directed_cases(tier, seed)
 
 
 # ------------------------------------------------------------------------------------------
@@ -323,6 +325,8 @@ def eval_scn(case):
                 changed_by_step_end.append((str(self.current_time), vid, before[vid], v.battery.soc))
         return r
     st_mod.Strategy.apply_battery_losses = losses
+    import s_backfill                      # tie of the run loop's `disconnect` back-fill (reported SoC of absent vehicles)
+    rec = s_backfill.Recorder().start()
     try:
         with warnings.catch_warnings():
             warnings.simplefilter("ignore")
@@ -331,6 +335,7 @@ def eval_scn(case):
             with contextlib.redirect_stdout(buf):
                 s.run("greedy", options)
     finally:
+        rec.stop()
         st_mod.Strategy.apply_battery_losses = orig_losses
     strat = s.strat
     aborted = "ABORTED" in (strat.description or "")
@@ -355,10 +360,14 @@ def eval_scn(case):
                          "negative SoC at %s, run ended with step_i=%d aborted=%s" % (first, s.step_i, aborted)))
     if not aborted and s.step_i != case["n"]:
         viol.append(("error_aborts", "C08:run_incomplete_without_error", "step_i=%d" % s.step_i))
-    return impl, viol
+    viol += s_backfill.oracle(s, rec)[0]
+    return impl, viol, s_backfill.lines_for(s, rec)
 
 
 def compare(case, impl, model):
+    if impl.startswith("@s_backfill "):
+        import s_backfill
+        return s_backfill.compare(case, impl, model)
     if case["k"] != "scn":
         return None if impl == model else "differs"
     # model output is the full evrun line; take the run summary and the last step's state
@@ -379,13 +388,17 @@ def compare(case, impl, model):
 
 
 def eval_case(case):
+    if case["k"] == "bf":
+        import s_backfill
+        return s_backfill.eval_directed(case)
     if case["k"] == "scn":
         rc = dict(case)
         rc["k"] = "run"
         rc["opts"] = dict(case["opts"])
         line = evwire.run_line(rc)
-        impl, viol = eval_scn(case)
-        return {"lines": [line], "impl": [impl], "violations": viol, "nontrivial": True, "stats": ["scenario_run"]}
+        impl, viol, (bf_lines, bf_impl) = eval_scn(case)
+        return {"lines": [line] + bf_lines, "impl": [impl] + bf_impl, "violations": viol, "nontrivial": True,
+                "stats": ["scenario_run"]}
     line = evwire.run_line(case)
     impl, obs = evwire.run_impl(case)
     viol = oracle(case, obs)
